@@ -12,6 +12,7 @@ the thread stress of the correspondence check exercises — no theorem can exhib
 import RubatoProofs.Lemmas.Shape
 import RubatoModel.Fft
 import RubatoModel.Generated
+import RubatoProofs.Fft.Storage
 
 set_option linter.unusedSectionVars false
 set_option linter.unusedVariables false
@@ -109,5 +110,25 @@ correspondence run, not covered here.) -/
 theorem no_ambient_state_constructs :
     ∀ e ∈ Rubato.Gen.Ambient.ambientStateTable, e.2 = 0 := by
   decide
+
+end Rubato.C18
+
+namespace Rubato.C18
+open Rubato
+
+/-- one operation of a synchronous (FFT) resampler as a state-machine step with its observation -/
+def fstep {σ υ : Type} (da : DivArith) (u : FftUnit σ υ) (s : FState σ υ) :
+    FftProofs.Op σ → FState σ υ × Option (Outcome (FCallOut σ))
+  | .process input outLens mask => let r := s.process da u input outLens mask; (r.1, some r.2)
+  | .reset zero => (s.reset da u zero, none)
+  | .setRatio => (s.setRatio.1, none)
+  | .setChunk n => ((s.setChunk n).1, none)
+
+/-- instantiation: any population of FFT resamplers (sharing the per-block unit `u`, i.e. the same plans and filter) under
+any interleaving: what instance `i` observes is its solo run -/
+theorem fft_instances_independent {σ υ : Type} (da : DivArith) (u : FftUnit σ υ) (sys : Nat → FState σ υ)
+    (sched : List (Nat × FftProofs.Op σ)) (i : Nat) :
+    proj i (runSystem (fstep da u) sys sched).2 = (solo (fstep da u) (sys i) (proj i sched)).2 :=
+  (interleaving_invisible (fstep da u) sys sched i).1
 
 end Rubato.C18
